@@ -1790,8 +1790,26 @@ def check_regressions(ctx, I):
                      dict(argv=args, samples=lens, config=cfg), kind="impl", key=key)
 
 
+def cleanup_stale():
+    """scratch of earlier runs of this check whose process is gone (a failing run keeps its files)"""
+    import re
+
+    for fn in os.listdir(BD):
+        m = re.match(r"run-(\d+)$", fn) or re.match(r"[a-z]+_(\d+)(?:_\d+)?\.(?:v|vo|vok|vos|glob)$", fn)
+        if m and not os.path.exists("/proc/%s" % m.group(1)):
+            path = os.path.join(BD, fn)
+            if os.path.isdir(path):
+                shutil.rmtree(path, ignore_errors=True)
+            else:
+                try:
+                    os.remove(path)
+                except OSError:
+                    pass
+
+
 def run(ctx):
     os.makedirs(BD, exist_ok=True)
+    cleanup_stale()
     I = Impl()
     ok_gen = regenerate(ctx)
     pr = C.proof_step(ctx) if ok_gen else None
@@ -1874,5 +1892,20 @@ def replay(ctx, rp):
         print("observed:", json.dumps(summ(obs), default=str))
         print("library pipeline (%s):" % status, [(k, list(m.shape)) for k, m in exp.items()])
         why = None
+        if status == "ok":
+            suffix = ".pt" if case["suffix"] is None else case["suffix"]
+            want = {case["prefix"] + u + suffix: m for u, m in exp.items()}
+            if obs["kind"] != "exit" or obs["code"] != 0:
+                why = "the tool did not finish: %s" % summ(obs)["result"]
+            elif sorted(want) != sorted(obs["disk"]):
+                why = "files %r, expected %r" % (sorted(obs["disk"]), sorted(want))
+            elif case["seed"] is not None or not any(isinstance(p, I.Dither) for p in pipe.pres):
+                for fn, m in want.items():
+                    ok, w = close(I.np, obs["disk"][fn].numpy(), m, 2e-4, 2e-4, True)
+                    if not ok:
+                        why = "%s: %s" % (fn, w)
+                        break
+        elif status == "channel-complaint" and not (obs["kind"] == "exc" and obs["exc"] == "ValueError"):
+            why = "expected the tool's ValueError, got %s" % summ(obs)["result"]
     print("verdict:", why or "agrees")
     return 1 if why else 0
